@@ -22,7 +22,7 @@ ASSUMPTIONS = ["instances are matched to epochs by their start cycle (at most on
                "g++-12 -O1 build of the working tree with harness-side shims"]
 FLOORS = {"epochs_checked": {"quick": 1200, "thorough": 20000}, "returns_to_earlier_key": {"quick": 250, "thorough": 4000},
           "instance_runs_compared": {"quick": 5000, "thorough": 80000}, "output_ticks_compared": {"quick": 1200, "thorough": 20000},
-          "unmatched_key_errors": {"quick": 3, "thorough": 50}, "default_to_default_key_changes": {"quick": 30, "thorough": 500}}
+          "unmatched_key_errors": {"quick": 3, "thorough": 50}, "default_to_default_key_changes": {"quick": 30, "thorough": 500}, "twin_switches": {"quick": 25, "thorough": 400}}
 BATCH = 20
 SOLO = (1001, 1002, 1003, 1004)
 
@@ -89,6 +89,11 @@ def gen_case12(rng, name, idx):
     args = ["k", "a"] + (["b"] if arity == 2 and not keyed else [])
     main.append(S("s", "switch", *args, **kw))
     main.append(S("", "rec", "s", uid=50))
+    if not reload and idx % 5 == 2 and not (idx % 15 == 14 and not has_default):
+        # the same switch once more with reload-on-tick: a different node, restarting its branch on every key tick
+        main.append(S("s2", "switch", *args, **dict(kw, reload=1)))
+        main.append(S("", "rec", "s2", uid=51))
+        c.meta["twin"] = 1
     c.graphs["main"] = main
     return c
 
@@ -158,6 +163,26 @@ def standalone(case, branch, t0, t1, key, kticks, aticks, bticks, emulate=False,
 
 
 def check(case, tr):
+    if not case.meta.get("twin") or tr.build_error or not tr.runs:
+        return check_one(case, tr, bool(case.meta["reload"]), 50, None)
+    # two switch_ calls over the same key, arguments and case table that differ ONLY in reload-on-tick are two nodes
+    owners = sorted({int(tk[2]) for _, k, tk in tr.runs[0].events if k == "G+" and int(tk[1]) == 0})
+    if len(owners) == 1 and not tr.runs[0].error:
+        res = Result(signature=case.text().split("\n", 1)[1])
+        res.violations.append(Violation("two switch_ calls that differ only in their reload-on-tick policy were merged into one node "
+                                        "(all branch instances belong to node %d): one of the two outputs follows the wrong policy" % owners[0]))
+        res.counters = {"twin_switches": 1}
+        return res
+    r1 = check_one(case, tr, False, 50, owners[0] if owners else None)
+    r2 = check_one(case, tr, True, 51, owners[1] if len(owners) > 1 else -1)
+    r1.violations += r2.violations
+    for k, v in r2.counters.items():
+        r1.counters[k] = r1.counters.get(k, 0) + v
+    r1.counters["twin_switches"] = 1
+    return r1
+
+
+def check_one(case, tr, reload, rec_uid, owner):
     res = Result(signature=case.text().split("\n", 1)[1])
     if tr.build_error:
         res.violations.append(Violation(f"valid program rejected at build: {tr.build_error}"))
@@ -172,7 +197,7 @@ def check(case, tr):
     cur = None
     err_at = None
     for t, k in kt:
-        if cur is not None and k == cur["key"] and not case.meta["reload"]:
+        if cur is not None and k == cur["key"] and not reload:
             continue
         branch = k - 1 if k in (1, 2, 3) else (3 if case.meta["default"] else None)
         if cur is not None:
@@ -199,18 +224,25 @@ def check(case, tr):
         res.violations.append(Violation(f"run failed: {run.error[:300]}"))
         return res
     inst_runs, gstart, gstop, gparent = {}, {}, {}, {}
+    foreign = set()
     tnow = None
     for seq, kind, tk in run.events:
         if kind == "C<" and tk[0] == "0":
             tnow = int(tk[1])
         elif kind == "G+":
+            if owner is not None and int(tk[1]) == 0 and int(tk[2]) != owner:
+                foreign.add(int(tk[0]))         # a branch instance of the other switch
+                continue
+            if int(tk[1]) in foreign:
+                foreign.add(int(tk[0]))
+                continue
             gparent[int(tk[0])] = int(tk[1])
             gstart[int(tk[0])] = tnow if tnow is not None else case.start
         elif kind == "G->":
             gstop[int(tk[0])] = tnow
     out_ticks = []
     for ue in run.uevals():
-        if ue.uid == 50:
+        if ue.uid == rec_uid:
             out_ticks.append((ue.t, ue.ins[0][3]))
         if gparent.get(ue.gid, -1) >= 0:
             top = ue.gid
